@@ -32,6 +32,10 @@ CHECKS = {
             "Ties either way; bounded budgets.", "§3 C12"),
     "C13": ("Run-level symbolic exploration of VROOM with np.random.choice stubbed (records the weight vector, forks over every index with positive weight), descent signs forking and uniform draws symbolic: ranks per depth are a permutation of 1..2^h, z3 proves they are non-increasing in the reference lower-confidence value, the weight vector equals 1/(h*rank*C) in exact rationals and sums to one, the returned point lies in the drawn cell and in the sampled descendant (validity), the descent reaches the depth cap, and the reward is credited to exactly the drawn cell and the descendants on the sampled path.",
             "RNG conformance to the weight vector is NumPy's contract; binary-child partitions in d=1.", "§3 C13"),
+    "C09": ("GPO/PCT/VPCT driven over recording stub learners for the whole budget with symbolic rewards: every n in 100..300 for rhomax=0.9 (thorough: ..1000) and a stride over the other rhomax / base learners; N and floor(n/2N) recomputed by the harness; asserts the number of learners, their (nu, rho_i) parameters and distinctness, creation exactly at phase starts, each learner pulled and credited for exactly floor(n/2N) rounds with the rewards of its own proposals, validation rounds touching no learner and re-serving the learner's last proposal, z3 proves each score equals the mean of exactly its validation rewards, and after the last phase pull and get_last_point return a validated point whose score is >= all others (free-reward runs explore every outcome of the arg-max).",
+            "Stub learners; banded rewards in the sweep (schedule is reward independent); near-integer values of the N formula accept both neighbours.", "§3 C09"),
+    "C10": ("POO driven over recording stub learners with symbolic rewards for 150 rounds (thorough 600) per rhomax in {0.84..0.99} and base name: after every round exactly one learner served the pull and exactly that learner received the reward, learners are only appended, each new learner has nu_max and a rho on the published grid inside (0, rho_max) distinct from all others, Times[i] equals the number of delivered rewards and z3 proves V_reward[i] equals their arithmetic mean; get_last_point is the next proposal of a learner whose mean is >= every other's (all outcomes of the arg-max in the free-reward runs).",
+            "Horizon bounded (the inductive step sketched in DESIGN is not discharged); stub learners.", "§3 C10"),
 }
 
 NOT_YET = {}
